@@ -37,6 +37,8 @@ def shards(tier):
                         out.append(dict(dev=dev, op="transfer", sgeo=sg, dgeo=dg, k=2, steps=2, partition_by=pb, auto_split=auto, washes=[1],
                                         ncand=2 if tier == "quick" else 4))
         out.append(dict(dev=dev, op="transfer", sgeo="p2x2", dgeo="p2x2", same=True, k=2, steps=2, partition_by="auto", washes=[1], ncand=2))
+        # both plates constructed (public constructor) from one caller-owned float array: their states must stay independent
+        out.append(dict(dev=dev, op="transfer", sgeo="p2x2", dgeo="p2x2", shared_init=True, k=1, steps=2, partition_by="auto", auto_split=True, washes=[1]))
     return out
 
 
